@@ -20,9 +20,14 @@ package limiters
 
 import (
 	"context"
+	"errors"
 	"sync"
 	"time"
 )
+
+// ErrBucketSetFull is returned by BucketSet.TakeContext if there is no room for
+// a new key and no stale buckets can be removed.
+var ErrBucketSetFull = errors.New("limiters: bucket set is full")
 
 // BucketSet combines a group of Ls into a single key-indexed structure.
 // Basically, each unique key gets its own counter. The main use case for
@@ -51,10 +56,16 @@ type BucketSet struct {
 	MaxBuckets int
 
 	mLck sync.Mutex
-	m    map[string]*struct {
-		r       L
-		lastUse time.Time
-	}
+	m    map[string]*bucket
+}
+
+type bucket struct {
+	r       L
+	lastUse time.Time
+	// Amount of Take calls that are waiting for the bucket or succeeded and
+	// are not followed by Release yet. Buckets with refs != 0 are never
+	// removed as stale.
+	refs int
 }
 
 func NewBucketSet(new_ func() L, reapInterval time.Duration, maxBuckets int) *BucketSet {
@@ -62,10 +73,7 @@ func NewBucketSet(new_ func() L, reapInterval time.Duration, maxBuckets int) *Bu
 		New:          new_,
 		ReapInterval: reapInterval,
 		MaxBuckets:   maxBuckets,
-		m: map[string]*struct {
-			r       L
-			lastUse time.Time
-		}{},
+		m:            map[string]*bucket{},
 	}
 }
 
@@ -78,45 +86,43 @@ func (r *BucketSet) Close() {
 	}
 }
 
-func (r *BucketSet) take(key string) L {
+// take returns the bucket for the key with refs counter incremented or nil
+// if there is no such bucket and no room for a new one.
+func (r *BucketSet) take(key string) *bucket {
 	r.mLck.Lock()
 	defer r.mLck.Unlock()
 
-	if len(r.m) > r.MaxBuckets {
+	if _, ok := r.m[key]; !ok && len(r.m) >= r.MaxBuckets {
 		now := time.Now()
 		// Attempt to get rid of stale buckets.
 		for k, v := range r.m {
-			if v.lastUse.Sub(now) > r.ReapInterval {
-				// Drop the bucket, if there happen to be any waiting Take for it.
-				// It will return 'false', but this is fine for us since this
-				// whole 'reaping' process will run only when we are under a
-				// high load and dropping random requests in this case is a
-				// more or less reasonable thing to do.
+			if v.refs == 0 && now.Sub(v.lastUse) > r.ReapInterval {
 				v.r.Close()
 				delete(r.m, k)
 			}
 		}
 
 		// Still full? E.g. all buckets are in use.
-		if len(r.m) > r.MaxBuckets {
+		if len(r.m) >= r.MaxBuckets {
 			return nil
 		}
 	}
 
-	bucket, ok := r.m[key]
+	b, ok := r.m[key]
 	if !ok {
-		r.m[key] = &struct {
-			r       L
-			lastUse time.Time
-		}{
-			r:       r.New(),
-			lastUse: time.Now(),
-		}
-		bucket = r.m[key]
+		b = &bucket{r: r.New()}
+		r.m[key] = b
 	}
-	r.m[key].lastUse = time.Now()
+	b.lastUse = time.Now()
+	b.refs++
 
-	return bucket.r
+	return b
+}
+
+func (r *BucketSet) unref(b *bucket) {
+	r.mLck.Lock()
+	defer r.mLck.Unlock()
+	b.refs--
 }
 
 func (r *BucketSet) Take(key string) bool {
@@ -124,8 +130,15 @@ func (r *BucketSet) Take(key string) bool {
 		return true
 	}
 
-	bucket := r.take(key)
-	return bucket.Take()
+	b := r.take(key)
+	if b == nil {
+		return false
+	}
+	if !b.r.Take() {
+		r.unref(b)
+		return false
+	}
+	return true
 }
 
 func (r *BucketSet) Release(key string) {
@@ -136,11 +149,14 @@ func (r *BucketSet) Release(key string) {
 	r.mLck.Lock()
 	defer r.mLck.Unlock()
 
-	bucket, ok := r.m[key]
+	b, ok := r.m[key]
 	if !ok {
 		return
 	}
-	bucket.r.Release()
+	b.r.Release()
+	if b.refs > 0 {
+		b.refs--
+	}
 }
 
 func (r *BucketSet) TakeContext(ctx context.Context, key string) error {
@@ -148,6 +164,13 @@ func (r *BucketSet) TakeContext(ctx context.Context, key string) error {
 		return nil
 	}
 
-	bucket := r.take(key)
-	return bucket.TakeContext(ctx)
+	b := r.take(key)
+	if b == nil {
+		return ErrBucketSetFull
+	}
+	if err := b.r.TakeContext(ctx); err != nil {
+		r.unref(b)
+		return err
+	}
+	return nil
 }
